@@ -16,7 +16,7 @@ import math, random
 from ..core import Check, MachineryFailure
 from .. import graph, tlc, tracecheck
 from ..impl_record import RecordImpl
-from .record_common import (mc_constants, run_mc_configs, gen_graph, replay_graph, validate_traces, canary_trace)
+from .record_common import (mc_constants, run_mc_configs, gen_graph, replay_graph, validate_traces, canary_trace, canary_replay)
 
 PID = "C13"
 KINDS = {"push", "resize", "recon", "life"}
@@ -110,6 +110,7 @@ def run(tier: str, seed: int) -> int:
             replay_graph(chk, g, consts, budget=(None if tier == "thorough" else budget), rng=rng, param=param,
                          tick=rng.choice([0.25, 0.5, 0.125]))
 
+    canary_replay(chk, g, consts, rng)
     from .c13_constraints import run_constraints
     run_constraints(chk, tier, rng)
 
@@ -118,3 +119,8 @@ def run(tier: str, seed: int) -> int:
     validate_traces(chk, traces, site="float-resize-history")
     canary_trace(chk, next(t for t in traces if len(t["ev"]) > 3))
     return chk.finish()
+
+
+def replay(path: str) -> int:
+    from .record_common import replay_file
+    return replay_file(PID, path)
